@@ -276,7 +276,7 @@ def gen_op(r, w, i):
         if opener in ("f(", "calc(", "(", "[", ":not(", "not(", "var(v,", "@media print{", "rgb(") and r.random() < 0.25:
             d = r.choice([700, 1000, 1500])  # deeper than the interpreter's recursion limit allows
         closer = {"var(v,": ")", "var(v, ": ")", "f(": ")", "calc(": ")", "rgb(": ")", "not(": ")", "(": ")", "[": "]", "{": "}", "url(": ")", "var(": ")", "a{": "}", "@media print{": "}", ":not(": ")", "@page{": "}", "\"": "\"", "/*": "*/"}[opener]
-        inner = r.choice(["1", "a", "x:y", "", "red"])
+        inner = r.choice(["1", "a", "x:y", "", "red", "a{left:0}", "b{top:0} c{left:1px}"])  # (the last two: valid content of nested rule blocks)
         closed = r.choice([d, d, d // 2, 0])
         body = opener * d + inner + closer * closed
         root = r.choice(["a{x:%s}", "%s", "a{%s}", "@media all{%s}", "a %s {}", "@x %s;"]) % body
